@@ -10,6 +10,7 @@
 -/
 import Mistletoe.Proofs.Block
 import Mistletoe.Proofs.Lines
+import Mistletoe.Proofs.DocLines
 namespace Mistletoe.Props.C13
 open Mistletoe Mistletoe.Py Mistletoe.Scan Mistletoe.Block Mistletoe.Lines
 
@@ -167,5 +168,95 @@ example : ∀ s ∈ sampleDoc, NlEnd s := by
   apply nlEnd_of_check
   revert s
   decide
+
+/-! ## From the parse buffer to the tokens: the block token constructors
+
+  `make_tokens` (`Document.mkBlock`/`mkBlocks`/`mkItems`, `tableRow`/`tableRows` of `Model/Document.lean`)
+  builds the tokens from the buffer entries: `token.line_number = line_number` for every entry,
+  `ListItem(…, line_number)`, `Table.__init__`: header row `start_line`, body row k
+  `start_line + 2 + k`, `TableRow.__init__`: every cell the row's number.  `Document.blockLns` is the
+  pre-order listing (kind, line_number) of a block and everything nested in it; `entriesLns` the same
+  listing computed from the buffer's reported numbers, `entriesOgs` from its ghost origins (a table's
+  header row = the origin of the table's first line, body row k = that origin + 2 + k). -/
+
+open Mistletoe.Document in
+/-- **The constructors copy the numbers, never recompute them**: whenever `make_tokens` returns, the
+    listing of the tokens equals the listing computed from the buffer (for every buffer, well-formed
+    or not; Footnote entries yield no token). -/
+theorem C13_constructors_copy (cfg : Document.Cfg) (fn : Footnotes.Table) (es : List Entry) (bs : List Mistletoe.Block)
+    (h : Document.mkBlocks cfg fn es = .ok bs) : blocksLns bs = entriesLns es :=
+  mkBlocks_lns cfg fn es bs h
+
+open Mistletoe.Document in
+/-- **Every block token of `Document(lines)`, at every nesting depth (children of block quotes and
+    list items, list items, table rows and cells included), reports the 1-based index of the input
+    line it was found on**: the listing of the document equals the listing of ghost origins of the
+    parse buffer the block phase returned. -/
+theorem C13_document_line_numbers (cfg : Document.Cfg) (gas : Nat) (lines : List Str) (d : Doc)
+    (hl : ∀ s ∈ lines, NlEnd s) (h : Document.parseLines cfg gas lines = .ok d) :
+    ∃ b st, blockPhase cfg.block gas lines = .ok (b, st) ∧ docLns d = entriesOgs b.entries :=
+  let ⟨b, st, h1, _, h3⟩ := parseLines_lns cfg gas lines d hl h
+  ⟨b, st, h1, h3⟩
+
+open Mistletoe.Document in
+/-- the same for a document given as one string -/
+theorem C13_document_str_line_numbers (cfg : Document.Cfg) (gas : Nat) (t : Str) (d : Doc)
+    (h : Document.parse cfg gas t = .ok d) :
+    ∃ b st, blockPhase cfg.block gas (normalize (.str t)) = .ok (b, st) ∧ docLns d = entriesOgs b.entries :=
+  C13_document_line_numbers cfg gas _ d (normalize_str_nlEnd t) h
+
+/-- **Table rows**: the number `Table.__init__` gives the header row (`start_line`) is the origin of
+    the first line `Table.read` consumed, and the number of body row k (`start_line + 2 + k`) is the
+    origin of the line that row was built from (the delimiter row, `start_line + 1`, yields no token). -/
+theorem C13_table_row_numbers (fw : FW) (b : List Str) (sl : Nat) (fw' : FW) (h : readTable fw = some (b, sl, fw')) (hok : fw.Ok) :
+    (∃ l, fw.peek = some l ∧ some l.s = b[0]? ∧ l.origin = sl) ∧
+    ∀ (k : Nat) (s : Str), b[k + 2]? = some s → ∃ l, fw.lines[fw.pos + (k + 2)]? = some l ∧ l.s = s ∧ l.origin = sl + 2 + k := by
+  have hr := readTable_rows fw b sl fw' h hok
+  obtain ⟨l0, l1, rest, hb, _⟩ := readTable_shape fw b sl fw' h
+  constructor
+  · obtain ⟨l, h1, h2, h3⟩ := hr 0 l0 (by rw [hb]; rfl)
+    exact ⟨l, by simpa [FW.peek] using h1, by rw [hb, h2]; rfl, by simpa using h3⟩
+  · intro k s hk
+    obtain ⟨l, h1, h2, h3⟩ := hr (k + 2) s hk
+    exact ⟨l, h1, h2, by omega⟩
+
+/-- in the listing, the rows of a table are numbered consecutively from the number of the first -/
+theorem C13_rows_consecutive (ls : List Str) (a n : Nat) :
+    Document.rowsLns ls a n = (ls.zipIdx n).flatMap (fun (l, k) => Document.rowLns l a k) :=
+  Document.rowsLns_eq ls a n
+
+/-! ### Non-vacuity: a list item that begins with a blank line, a quote containing a table, a lazy
+    continuation line, a link reference definition (no token), a heading -/
+
+def docCfg : Document.Cfg :=
+  { block := { types := [.htmlBlock, .blockCode, .heading, .quote, .codeFence, .thematicBreak, .list, .table, .footnote, .paragraph] },
+    span := [.escapeSequence, .htmlSpan, .autoLink, .coreTokens, .inlineCode, .lineBreak, .strikethrough] }
+
+/-- line 1 `-` (item that begins with a blank line), 2 its paragraph, 3–5 a table inside a quote
+    (4 is the delimiter row), 6 `>`, 7 a paragraph inside the quote, 8 its lazy continuation,
+    9 a link reference definition, 10 a heading -/
+def docLines10 : List Str :=
+  ["-\n", "  foo\n", "> | a | b |\n", "> |---|---|\n", "> | 1 | 2 |\n", ">\n", "> para\n", "lazy\n", "[r]: /u\n", "# h\n"].map String.toList
+
+open Mistletoe.Document in
+/-- the listing the kernel computes from the full model: every token reports the index of the line
+    that contains its first character (the same list is obtained by walking the token tree of the
+    real `Document(lines)` and reading `line_number`) -/
+example : (match Document.parseLines docCfg 60 docLines10 with
+    | .ok d => docLns d
+    | .err _ => []) =
+    [(.list, 1), (.listItem, 1), (.paragraph, 2),
+     (.quote, 3), (.table, 3), (.tableRow, 3), (.tableCell, 3), (.tableCell, 3),
+       (.tableRow, 5), (.tableCell, 5), (.tableCell, 5), (.paragraph, 7),
+     (.heading, 10)] := by decide +kernel
+
+open Mistletoe.Document in
+/-- and it is the listing of ghost origins of the parse buffer, as `C13_document_line_numbers` says -/
+example : (match Document.parseLines docCfg 60 docLines10, blockPhase docCfg.block 60 docLines10 with
+    | .ok d, .ok (b, _) => docLns d == entriesOgs b.entries && !(docLns d).isEmpty
+    | _, _ => false) = true := by decide +kernel
+
+example : ∀ s ∈ docLines10, NlEnd s := by
+  intro s hs; apply nlEnd_of_check; revert s; decide
 
 end Mistletoe.Props.C13
